@@ -67,15 +67,20 @@ class Calc:
         self.data_atoms = {f"{self.md}[BID]", f"{self.md}.get(BID)"}
         self.roles: dict[str, str] = {}  # role atom -> data atom it was read from
         self.sym = SymExec(prog, fn, call_hook=self._call_hook, item_atom="BID")
-        self.post = self.sym.run(list(fn.node.body), {})
-        if len(self.sym.loops) != 1 or self.sym.loops[0].facts:
+        leaves = self.sym.run(list(fn.node.body), {})
+        if len(self.sym.loops) != 1:
             raise AnalysisError(f"{fn.qual}: aggregation loop not found ({len(self.sym.loops)} loops on the paths of one call)")
         rec = self.rec = self.sym.loops[0]
+        # paths that return before the loop is reached (`if not working_batteries: return …`) are kept apart
+        self.post = [x for x in leaves if x.facts[:len(rec.facts)] == rec.facts]
+        self.bypass = [x for x in leaves if x.facts[:len(rec.facts)] != rec.facts]
         self.loop, self.pre_env, self.iter_term, self.body = rec.node, rec.pre_env, rec.iter_term, rec.leaves
         # ---- one iteration, every path
         for v in rec.assigned:
             if (rec.fn is fn and v in (self.md, self.wb)) or rec.pre_env.get(v) in (Poly.atom(self.md), Poly.atom(self.wb)):
                 raise AnalysisError(f"{fn.qual}: parameter rebound in the loop")
+        self.raises = [x for x in self.body if x.kind == "raise"]  # decided (reported) by C18.EXCL
+        self.body = [x for x in self.body if x.kind != "raise"]
         bad = [x for x in self.body if x.kind not in ("fall", "continue")]
         if bad:
             raise AnalysisError(f"{fn.qual}: `{bad[0].kind}` inside the aggregation loop")
@@ -361,10 +366,13 @@ def check_excl_calc(run: Run, calc: Calc) -> None:
     qids = {id(x) for x in q}
     others = [x for x in calc.body if id(x) not in qids]
     ok = bool(q) and bool(others) and any(not calc.present(x) for x in others) and any(
-        calc.present(x) and not calc.complete(x) for x in others)
+        calc.present(x) and not calc.complete(x) for x in others) and not calc.raises
     run.check(ok, "C18.EXCL", fn.qual, "guards: present in data; every required metric not None",
               "the loop does not skip batteries that are absent from the data or lack one of the "
-              f"required metrics ({sorted(calc.roles)})", node=loop, file=fn.file)
+              f"required metrics ({sorted(calc.roles)})"
+              + (f"; for some battery data an iteration raises instead (line {getattr(calc.raises[0].node, 'lineno', '?')}, "
+                 f"when {', '.join(fmt(f) for f in calc.raises[0].facts) or 'always'})" if calc.raises else ""),
+              node=loop, file=fn.file)
     if not ok:
         return
     if len(calc.carried) < 2:
@@ -404,6 +412,12 @@ def check_excl_calc(run: Run, calc: Calc) -> None:
             else:
                 ok = ok and r[1] != NONE and "None" not in r[1].atoms()
         ok = ok and any(eq in x.facts for x in calc.post) and any(cneg(eq) in x.facts for x in calc.post)
+    # a path that returns without reaching the loop: only for an empty working set / no data at all, and None
+    nothing = {("falsy", calc.wb), ("falsy", calc.md), ("==", frozenset({f"len({calc.wb})", "0"})),
+               ("==", frozenset({f"len({calc.md})", "0"}))}
+    for x in calc.bypass:
+        r = result_of(calc, x) if x.kind == "return" else None
+        ok = ok and r is not None and r[1] == NONE and any(f in nothing for f in x.facts)
     run.check(ok, "C18.EXCL", fn.qual, "None sample iff the sentinel is untouched",
               "the result is not None exactly when no battery qualified", node=fn.node, file=fn.file)
 
